@@ -284,6 +284,7 @@ def fused_map(ctx):
         def decide(name, argv, t):
             return None
         out = {}
+        conditional = {}
         for opname, _ in F.enum_variants(OPERATOR):
             for scname, _ in F.enum_variants(SCOPE):
                 # parameters: _1 self, _2 varname, _3 const_value, _4 operator (&Operator)
@@ -313,9 +314,15 @@ def fused_map(ctx):
                             res.add(('<fallback>',))
                     else:
                         res.add(('<%s>' % p.exit,))
-                r = one(res)
+                ops_only = {x for x in res if x != ('<fallback>',) and not (len(x) == 1 and str(x[0]).startswith('<'))}
+                if len(ops_only) == 1 and ('<fallback>',) in res:
+                    # the fused form is used under an additional (value-dependent) condition, otherwise the generic path
+                    r = next(iter(ops_only))
+                    conditional[(opname, scname)] = True
+                else:
+                    r = one(res)
                 out[(opname, scname)] = r[0] if len(r) == 1 and isinstance(r[0], str) else r
-        return {'map': out, 'fn': fn}
+        return {'map': out, 'fn': fn, 'conditional': conditional}
     return _memo(ctx, 'fused_map', build)
 
 
